@@ -1331,6 +1331,11 @@ def _parse_einsum_input(operands):
     if len(input_subscripts.split(",")) != len(operands):
         raise ValueError("Number of einsum subscripts must be equal to the number of operands.")
 
+    # Make sure no term has more subscripts than its operand has dimensions
+    for num, sub in enumerate(input_subscripts.split(",")):
+        if len(sub) > operands[num].ndim:
+            raise ValueError(f"einstein sum subscripts string contains too many subscripts for operand {num}")
+
     return (input_subscripts, output_subscript, operands)
 
 
